@@ -1021,3 +1021,157 @@ pub fn monitor_restart_numbers<Signer: crate::sign::ecdsa::EcdsaChannelSigner>(
 		monitor.get_min_seen_secret(),
 	]
 }
+
+/// The monitor's view of not-yet-final on-chain events and of the irrevocable conclusions already
+/// drawn (C11): `(best_height, awaiting [(txid, height, kind, confirmation_threshold)],
+/// funding_spend_confirmed, spendable_txids_confirmed, htlc_resolving_txids)`.
+pub fn monitor_onchain_view<Signer: crate::sign::ecdsa::EcdsaChannelSigner>(
+	monitor: &crate::chain::channelmonitor::ChannelMonitor<Signer>,
+) -> (
+	u32,
+	Vec<(bitcoin::Txid, u32, &'static str, u32)>,
+	Option<bitcoin::Txid>,
+	Vec<bitcoin::Txid>,
+	Vec<Option<bitcoin::Txid>>,
+) {
+	monitor.verif_onchain_view()
+}
+
+/// Fee-bump / bump-timer / locktime arithmetic of `chain::package` (crate-private), for the
+/// C06/C07 differential.
+pub mod package {
+	#![allow(missing_docs)]
+	use crate::chain::chaininterface::{ConfirmationTarget, FeeEstimator, LowerBoundedFeeEstimator};
+	use crate::chain::onchaintx::FeerateStrategy;
+	use crate::chain::package::{
+		verif_compute_fee_from_spent_amounts, verif_feerate_bump, CounterpartyOfferedHTLCOutput,
+		CounterpartyReceivedHTLCOutput, HolderFundingOutput, HolderHTLCOutput, PackageSolvingData,
+		PackageTemplate, RevokedHTLCOutput, RevokedOutput,
+	};
+	use crate::ln::chan_utils::{
+		ChannelTransactionParameters, HTLCOutputInCommitment, HolderCommitmentTransaction,
+	};
+	use crate::sign::HTLCDescriptor;
+	use crate::types::payment::PaymentPreimage;
+	use crate::util::logger::Logger;
+	use alloc::vec::Vec;
+	use bitcoin::secp256k1::{PublicKey, SecretKey};
+	use bitcoin::{Amount, OutPoint};
+
+	const TARGET: ConfirmationTarget = ConfirmationTarget::UrgentOnChainSweep;
+
+	fn strategy(code: u8) -> FeerateStrategy {
+		match code {
+			0 => FeerateStrategy::RetryPrevious,
+			1 => FeerateStrategy::HighestOfPreviousOrNew,
+			_ => FeerateStrategy::ForceBump,
+		}
+	}
+
+	/// `package::feerate_bump` with `FeerateStrategy` coded 0 = RetryPrevious,
+	/// 1 = HighestOfPreviousOrNew, 2 = ForceBump.
+	pub fn feerate_bump<F: FeeEstimator, L: Logger>(
+		predicted_weight: u64, input_amounts: u64, dust_limit_sats: u64, previous_feerate: u64,
+		feerate_strategy: u8, fee_estimator: F, logger: &L,
+	) -> Option<(u64, u64)> {
+		verif_feerate_bump(
+			predicted_weight,
+			input_amounts,
+			dust_limit_sats,
+			previous_feerate,
+			&strategy(feerate_strategy),
+			TARGET,
+			&LowerBoundedFeeEstimator::new(fee_estimator),
+			logger,
+		)
+	}
+
+	/// `package::compute_fee_from_spent_amounts`
+	pub fn compute_fee_from_spent_amounts<F: FeeEstimator, L: Logger>(
+		input_amounts: u64, predicted_weight: u64, fee_estimator: F, logger: &L,
+	) -> Option<(u64, u64)> {
+		verif_compute_fee_from_spent_amounts(
+			input_amounts,
+			predicted_weight,
+			TARGET,
+			&LowerBoundedFeeEstimator::new(fee_estimator),
+			logger,
+		)
+	}
+
+	/// One synthetic package input, by `PackageSolvingData` variant.
+	pub enum Input {
+		RevokedOutput,
+		RevokedHTLCOutput,
+		CounterpartyOfferedHTLCOutput { cltv_expiry: u32 },
+		CounterpartyReceivedHTLCOutput { cltv_expiry: u32 },
+		/// `descriptor.preimage.is_some()` selects the HTLC-success flavour
+		HolderHTLCOutput { descriptor: HTLCDescriptor },
+		HolderFundingOutput { commitment_tx: HolderCommitmentTransaction },
+	}
+
+	/// `(get_height_timer(current_height), package_locktime(current_height))` of a
+	/// `PackageTemplate` over `inputs` with the given `counterparty_spendable_height`.
+	pub fn height_timer_and_locktime(
+		inputs: Vec<Input>, channel_parameters: &ChannelTransactionParameters,
+		counterparty_spendable_height: u32, current_height: u32,
+	) -> (u32, u32) {
+		let key = SecretKey::from_slice(&[1; 32]).unwrap();
+		let point = PublicKey::from_slice(&[2; 33]).unwrap();
+		let htlc = |offered: bool, cltv_expiry: u32| HTLCOutputInCommitment {
+			offered,
+			amount_msat: 1_000_000,
+			cltv_expiry,
+			payment_hash: crate::types::payment::PaymentHash([1; 32]),
+			transaction_output_index: None,
+		};
+		let params = || channel_parameters.clone();
+		let data: Vec<(OutPoint, PackageSolvingData)> = inputs
+			.into_iter()
+			.enumerate()
+			.map(|(i, input)| {
+				let solving_data = match input {
+					Input::RevokedOutput => PackageSolvingData::RevokedOutput(
+						RevokedOutput::build(point, key, Amount::ZERO, params(), 0),
+					),
+					Input::RevokedHTLCOutput => PackageSolvingData::RevokedHTLCOutput(
+						RevokedHTLCOutput::build(point, key, htlc(false, 0), params(), 0),
+					),
+					Input::CounterpartyOfferedHTLCOutput { cltv_expiry } => {
+						PackageSolvingData::CounterpartyOfferedHTLCOutput(
+							CounterpartyOfferedHTLCOutput::build(
+								point,
+								PaymentPreimage([2; 32]),
+								htlc(false, cltv_expiry),
+								params(),
+								None,
+							),
+						)
+					},
+					Input::CounterpartyReceivedHTLCOutput { cltv_expiry } => {
+						PackageSolvingData::CounterpartyReceivedHTLCOutput(
+							CounterpartyReceivedHTLCOutput::build(
+								point,
+								htlc(true, cltv_expiry),
+								params(),
+								None,
+							),
+						)
+					},
+					Input::HolderHTLCOutput { descriptor } => {
+						PackageSolvingData::HolderHTLCOutput(HolderHTLCOutput::build(descriptor, 0))
+					},
+					Input::HolderFundingOutput { commitment_tx } => {
+						PackageSolvingData::HolderFundingOutput(HolderFundingOutput::build(
+							commitment_tx,
+							params(),
+						))
+					},
+				};
+				(OutPoint { txid: bitcoin::Txid::from_raw_hash(bitcoin::hashes::Hash::all_zeros()), vout: i as u32 }, solving_data)
+			})
+			.collect();
+		let template = PackageTemplate::verif_from_inputs(data, counterparty_spendable_height);
+		(template.get_height_timer(current_height), template.package_locktime(current_height))
+	}
+}
